@@ -59,4 +59,6 @@ WitnessSpec == InitWith(WitnessModels) /\ [][Next]_vars
 
 OtherNames == {"zeta", "values", "createdAtX"}
 TagIsolation == stage = "model" => TagIsolationFor(mdl[1], mdl[2], OtherNames)
+\* a second record under a key that differs only by white space / case neither collides nor changes
+RecordsIndependent == (stage = "model" /\ mdl[1] = "catalog") => RecordsIndependentFor(mdl[2])
 =============================================================================
